@@ -50,6 +50,7 @@ struct cfg {
   int lc;       /* c2 is a real libcoap client context */
   int nofetch;  /* raw observers do not fetch the remaining blocks of a multi-block notification */
   int verdicts; /* every notification offers "answer with RST" as a cost-1 alternative */
+  int fault_blocks; /* block-wise follow-up requests / responses may be dropped, duplicated, reordered too */
   int nops;
   struct op ops[MAXOPS];
   int bound;
@@ -289,6 +290,8 @@ on_send(const ns_dgram_t *d) {
       snprintf(bb, sizeof bb, "%u/%u", w_uint(b2) >> 4, (w_uint(b2) >> 3) & 1);
     vx_observe("t=%llu S>c%d #%d type=%d %d.%02d mid=%04x tok=%s obs=%s b2=%s v=%ld h=%d", (unsigned long long)ns_now(), o + 1, d->id,
                m.type, m.code >> 5, m.code & 31, m.mid, tokstr(m.token, m.tkl), ob, bb, v, h);
+    if (oo && oo->len > 3)
+      vx_fail("wire:observe-option-longer-than-3-bytes", "mid=%04x: Observe option of %zu bytes (RFC 7641 2: 0-3 bytes)", m.mid, oo->len);
     if (o < 0 || o >= NOBS)
       return;
     struct ro_emit e = {.observer = o, .type = m.type, .code = m.code, .mid = m.mid, .tok = m.token, .tkl = m.tkl,
@@ -597,10 +600,11 @@ do_op(const struct op *o) {
     break;
   case OP_DEL:
     vx_observe("t=%llu OP del(%s): coap_delete_resource", (unsigned long long)ns_now(), res_name[r]);
+    /* the final 4.04 (no Observe option) that libcoap emits inside the call is allowed by the anchor */
+    ro_resource_deleted(&RO, r);
     coap_delete_resource(sc, res[r]);
     res[r] = NULL;
     deleted[r] = 1;
-    ro_resource_deleted(&RO, r);
     break;
   case OP_CLOSE: {
     coap_session_t *s = coap_session_get_by_peer(sc, &obs_addr[c], 1);
@@ -617,6 +621,16 @@ do_op(const struct op *o) {
 /* scheduler                                                                                   */
 #define HORIZON_MS 3000000ULL
 
+/* a Block2 follow-up: request for block > 0 or its piggybacked response (no Observe option in either) */
+static int
+is_block_followup(const ns_dgram_t *d) {
+  struct w_msg m;
+  if (!w_parse(d->data, d->len, &m) || m.code == 0)
+    return 0;
+  const struct w_opt *b2 = w_find(&m, 23);
+  return b2 && (w_uint(b2) >> 4) > 0;
+}
+
 static int
 step(int allow_dev, unsigned max_timer_ms) {
   enum { EV_DELIVER, EV_OP, EV_TIMER, EV_REORDER, EV_DROP, EV_DUP };
@@ -630,16 +644,21 @@ step(int allow_dev, unsigned max_timer_ms) {
   int ops_left = phase == 0 && pos < C->nops;
   int budget = allow_dev ? vx_budget_left() : 0;
   int timer_ok = tmo && tmo <= max_timer_ms && ns_now() + tmo <= HORIZON_MS;
+  /* "the timer fires before the delivery / the next operation" is offered when the timer can matter for
+   * observations: a retransmission is queued or a notification is waiting to go out */
+  int timer_first_ok = timer_ok && (sc->sendqueue || sc->observe_pending || (cc && cc->sendqueue));
   if (nf > 0)
     ev[n].kind = EV_DELIVER, ev[n].idx = 0, cost[n++] = 0;
   if (ops_left && (nf == 0 || budget > 0))
     ev[n].kind = EV_OP, ev[n].idx = 0, cost[n] = n ? 1 : 0, n++;
-  if (timer_ok && ((nf == 0 && !ops_left) || budget > 0))
+  if (timer_ok && ((nf == 0 && !ops_left) || (budget > 0 && timer_first_ok)))
     ev[n].kind = EV_TIMER, ev[n].idx = (int)tmo, cost[n] = n ? 1 : 0, n++;
   if (n == 0)
     return 0;
   if (budget > 0) {
     for (int j = 0; j < nf && j < 4 && n < VX_MAXALT - 3; j++) {
+      if (!C->fault_blocks && is_block_followup(ns_inflight(j)))
+        continue;
       if (j >= 1)
         ev[n].kind = EV_REORDER, ev[n].idx = j, cost[n++] = 1;
       ev[n].kind = EV_DROP, ev[n].idx = j, cost[n++] = 1;
@@ -705,6 +724,11 @@ check_sessions(const char *when) {
               regstr(r));
       return;
     }
+    if (s->ref == 0) {
+      vx_fail("session-unreferenced-with-observers", "%s: server session of c%d has ref 0 (idle, reclaimable) although %s is registered", when,
+              r->observer + 1, regstr(r));
+      return;
+    }
   }
 }
 
@@ -716,9 +740,11 @@ check_fresh(const char *when) {
       continue;
     if (r->last_val != val[r->resource]) {
       char sig[100];
-      snprintf(sig, sizeof sig, "stale-last-state:%s", blame(r));
-      vx_fail(sig, "%s: %s is registered and everything is quiescent, newest notification sent carries v%ld but the resource is at v%ld", when,
-              regstr(r), r->last_val, val[r->resource]);
+      /* shape: libcoap still has the notification pending but announced no timer (coap_io_prepare_io() returned 0
+       * with nothing in flight): an application blocking in coap_io_process(ctx, COAP_IO_WAIT) never sends it */
+      snprintf(sig, sizeof sig, "stale-last-state:%s", sc->observe_pending ? "pending-without-timer" : blame(r));
+      vx_fail(sig, "%s: %s is registered and everything is quiescent (no datagram in flight, coap_io_prepare_io() announces no timer%s), newest notification sent carries v%ld but the resource is at v%ld",
+              when, regstr(r), sc->observe_pending ? ", observe_pending still set" : "", r->last_val, val[r->resource]);
     }
   }
 }
@@ -780,6 +806,8 @@ probe_round(int k) {
     if (got > want) {
       snprintf(sig, sizeof sig, "dup-entry:%s", blame(r));
       vx_fail(sig, "%s: one change of %s produced %ld notifications for %s", when, res_name[r->resource], got, regstr(r));
+    } else if (got < want && r->last_val != val[r->resource] && sc->observe_pending) {
+      ; /* reported by check_fresh below as stale-last-state:pending-without-timer */
     } else if (got < want) {
       snprintf(sig, sizeof sig, "missed-notification:%s", blame(r));
       vx_fail(sig, "%s: change of %s to v%ld produced no notification for registered %s", when, res_name[r->resource], val[r->resource],
@@ -908,9 +936,10 @@ struct family {
   unsigned kinds;          /* allowed op kinds (bit mask) */
   int modes;               /* bit mask of modes; rotate != 0: one mode per sequence, rotating */
   int rotate;
-  int wrap, lc, nofetch, verdicts;
+  int wrap, lc, nofetch, verdicts, fault_blocks;
   int bound;
   int need_r2;             /* only sequences that touch r2 */
+  int qcanon;              /* query "x=1" is only used for a second registration next to the query-less one */
 };
 
 static struct cfg *cfgs;
@@ -934,6 +963,8 @@ op_ok(const struct sstate *s, const struct op *o, const struct family *f) {
   case OP_REG:
     if (!f->lc && c == 1 && !s->used[0])
       return 0; /* raw observers are interchangeable: the first one used is c1 */
+    if (f->qcanon && q == 1 && !s->act[c][r][0])
+      return 0;
     return !s->deleted[r] && !s->act[c][r][q] && !s->silent[c];
   case OP_REREG:
   case OP_CANCEL:
@@ -1021,11 +1052,12 @@ emit_scenario(const struct family *f, const struct op *ops, int n) {
     c->lc = f->lc;
     c->nofetch = f->nofetch;
     c->verdicts = f->verdicts;
+    c->fault_blocks = f->fault_blocks;
     c->bound = f->bound;
     c->nops = n;
     memcpy(c->ops, ops, sizeof *ops * (size_t)n);
-    size_t o = (size_t)snprintf(c->name, sizeof c->name, "c11:%s,m=%s,w=%d,lc=%d,nf=%d,vd=%d,B=%d:", f->tag, mode_names[m], c->wrap, c->lc,
-                                c->nofetch, c->verdicts, c->bound);
+    size_t o = (size_t)snprintf(c->name, sizeof c->name, "c11:%s,m=%s,w=%d,lc=%d,nf=%d,vd=%d,fb=%d,B=%d:", f->tag, mode_names[m], c->wrap,
+                                c->lc, c->nofetch, c->verdicts, c->fault_blocks, c->bound);
     for (int i = 0; i < n && o + 24 < sizeof c->name; i++) {
       const struct op *p = &ops[i];
       switch (p->kind) {
@@ -1088,17 +1120,31 @@ main(int argc, char **argv) {
   vx_main_init(argc, argv, "C11");
   int T = vx_is_thorough();
   static const struct family quick[] = {
+      /* every sequence up to depth 2 over the full alphabet, all three modes */
       {.tag = "d2", .mind = 1, .maxd = 2, .cmask = 3, .rmask = 3, .qmask = 3, .kinds = ALLK, .modes = 7, .bound = 1},
-      {.tag = "d3", .mind = 3, .maxd = 3, .cmask = 3, .rmask = 3, .qmask = 3, .kinds = ALLK, .modes = 7, .rotate = 1, .bound = 1},
+      /* depth 3, query "x=1" only next to the query-less registration, default and CON mode */
+      {.tag = "d3", .mind = 3, .maxd = 3, .cmask = 3, .rmask = 3, .qmask = 3, .kinds = ALLK, .modes = 3, .bound = 1, .qcanon = 1},
       {.tag = "lc", .mind = 1, .maxd = 2, .cmask = 3, .rmask = 3, .qmask = 1, .kinds = ALLK, .modes = 7, .rotate = 1, .lc = 1, .bound = 1},
       {.tag = "wrap", .mind = 1, .maxd = 2, .cmask = 1, .rmask = 3, .qmask = 1, .kinds = ALLK, .modes = 3, .wrap = 1, .bound = 1},
   };
   static const struct family thorough[] = {
-      {.tag = "d3", .mind = 1, .maxd = 3, .cmask = 3, .rmask = 3, .qmask = 3, .kinds = ALLK, .modes = 7, .bound = 1},
+      {.tag = "d3", .mind = 1, .maxd = 3, .cmask = 3, .rmask = 3, .qmask = 3, .kinds = ALLK, .modes = 7, .bound = 1, .qcanon = 1},
+      {.tag = "d3full", .mind = 1, .maxd = 3, .cmask = 3, .rmask = 3, .qmask = 3, .kinds = ALLK, .modes = 7, .rotate = 1, .bound = 1},
+      {.tag = "d2b2", .mind = 1, .maxd = 2, .cmask = 3, .rmask = 3, .qmask = 3, .kinds = ALLK, .modes = 7, .bound = 2, .qcanon = 1},
+      {.tag = "d4", .mind = 4, .maxd = 4, .cmask = 3, .rmask = 1, .qmask = 1, .kinds = ALLK, .modes = 3, .bound = 1},
+      {.tag = "d5", .mind = 5, .maxd = 5, .cmask = 1, .rmask = 1, .qmask = 1, .kinds = ALLK, .modes = 7, .rotate = 1, .bound = 1},
+      {.tag = "d5b0", .mind = 4, .maxd = 5, .cmask = 1, .rmask = 1, .qmask = 3, .kinds = ALLK, .modes = 7, .bound = 0, .qcanon = 1},
+      {.tag = "lc", .mind = 1, .maxd = 3, .cmask = 3, .rmask = 3, .qmask = 1, .kinds = ALLK, .modes = 7, .rotate = 1, .lc = 1, .bound = 1},
+      {.tag = "wrap", .mind = 1, .maxd = 3, .cmask = 1, .rmask = 3, .qmask = 3, .kinds = ALLK, .modes = 3, .wrap = 1, .bound = 1, .qcanon = 1},
+      {.tag = "nofetch", .mind = 1, .maxd = 3, .cmask = 3, .rmask = 3, .qmask = 3, .kinds = ALLK, .modes = 7, .rotate = 1, .nofetch = 1,
+       .fault_blocks = 1, .bound = 1, .need_r2 = 1, .qcanon = 1},
+      {.tag = "blk", .mind = 1, .maxd = 3, .cmask = 3, .rmask = 3, .qmask = 3, .kinds = ALLK, .modes = 7, .rotate = 1, .fault_blocks = 1,
+       .bound = 1, .need_r2 = 1, .qcanon = 1},
+      {.tag = "vd", .mind = 1, .maxd = 3, .cmask = 3, .rmask = 1, .qmask = 1, .kinds = ALLK, .modes = 7, .verdicts = 1, .bound = 1},
   };
   const struct family *fams = T ? thorough : quick;
   int nf = T ? (int)(sizeof thorough / sizeof thorough[0]) : (int)(sizeof quick / sizeof quick[0]);
-  char famdesc[1200] = "";
+  char famdesc[2400] = "";
   size_t fo = 0;
   for (int i = 0; i < nf; i++) {
     struct sstate s;
